@@ -462,14 +462,29 @@ func wrapCtxOnce(c *lib.Ctx, r *lib.Rand, p *peer, tag, tr, regime string, plan 
 	silentAt := -1
 	buf := make([]byte, 2048)
 	var r0 callRes
-	finished, timingBad := false, false
+	finished, timingBad, returned, ctxDoneAtReturn := false, false, false, false
+	idle := 0
 	for !finished {
 		p.conns[0].SetReadDeadline(time.Now().Add(5 * time.Millisecond))
 		nb, from, err := p.conns[0].ReadFromUDPAddrPort(buf)
 		if err != nil {
+			if returned {
+				// MeasureClockOffsetSCION may return while its per-path goroutine is still at work (collection
+				// step left through ctx.Done()): keep serving that goroutine, by the plan, until it is quiet —
+				// its further exchanges are part of what the loop does, and nothing of this call may reach the next
+				if idle++; idle >= 8 {
+					finished = true
+				}
+				continue
+			}
 			select {
 			case r0 = <-done:
-				finished = true
+				ctxDoneAtReturn = ctx.Err() != nil
+				if scionTr {
+					returned = true
+				} else {
+					finished = true
+				}
 			default:
 				if time.Since(start) > 20*time.Second {
 					timingBad, finished = true, true
@@ -477,6 +492,7 @@ func wrapCtxOnce(c *lib.Ctx, r *lib.Rand, p *peer, tag, tr, regime string, plan 
 			}
 			continue
 		}
+		idle = 0
 		if made >= n {
 			timingBad = true
 			continue
@@ -533,26 +549,6 @@ func wrapCtxOnce(c *lib.Ctx, r *lib.Rand, p *peer, tag, tr, regime string, plan 
 			cancel()
 		}
 	}
-	ctxDoneAtReturn := ctx.Err() != nil
-	if scionTr {
-		// MeasureClockOffsetSCION may return while its per-path goroutine is still at work (collection step
-		// left through ctx.Done()): keep answering that goroutine until it is quiet, so that nothing of
-		// this call reaches the next one
-		for idle := 0; idle < 6; {
-			p.conns[0].SetReadDeadline(time.Now().Add(5 * time.Millisecond))
-			nb, from, err := p.conns[0].ReadFromUDPAddrPort(buf)
-			if err != nil {
-				idle++
-				continue
-			}
-			idle = 0
-			if ri := sl.parse(buf[:nb]); ri.ok {
-				ri.R = wallNow().UnixNano()
-				g, _ := p.reply(ri, 0, wallNow().UnixNano(), false)
-				p.conns[0].WriteToUDPAddrPort(buildSCION(genuineVariant(), uint16(p.addr.Port()), sl.srcPort, g).wire, from)
-			}
-		}
-	}
 	if timingBad || r0.panic != "" {
 		c.Count(tag + ":discarded:" + regime)
 		return
@@ -571,20 +567,32 @@ func wrapCtxOnce(c *lib.Ctx, r *lib.Rand, p *peer, tag, tr, regime string, plan 
 			}
 		}
 	}
-	// attempts that sent no request: entered with the deadline passed
+	// attempts the peer saw nothing of: never entered (the loop ended in interleaved mode — the model stops
+	// there as well), or entered with the deadline passed (nothing is sent), or — in a regime whose context
+	// never expires during the call — not made although the loop should have made them: those are put down as
+	// lost exchanges, which the model counts as requests sent
 	brokeAfterIL := len(att) > 0 && strings.HasSuffix(att[len(att)-1], ":true")
+	expiring := regime == "expired-on-entry" || strings.HasPrefix(regime, "expires-in-attempt")
 	for k := made; k < n; k++ {
-		if brokeAfterIL {
-			att = append(att, "l/-") // never entered: the loop ended in interleaved mode (the model stops there as well)
-		} else {
+		switch {
+		case brokeAfterIL:
+			att = append(att, "l/-")
+		case expiring:
 			att = append(att, "x/-")
+		default:
+			st := "l"
+			if regime == "cancelled-on-entry" || cancelAfter != 0 && k >= cancelAfter {
+				st = "c"
+			}
+			att = append(att, st+"/err:read")
+			c.Count(tag + ":attempt-not-seen-by-the-peer")
 		}
 	}
 	op := fmt.Sprintf("cli.wrapx tr=%s il=%s att=%s", tr, lib.Bool(il), strings.Join(att, ","))
 	c.Count(fmt.Sprintf("%s:%s:il=%s", tag, regime, lib.Bool(il)))
 	var ans string
 	if r0.err != nil {
-		ans = "err " + wrapErrKind(r0.err)
+		ans = fmt.Sprintf("err %s reqs=%d", wrapErrKind(r0.err), made)
 		if scionTr && answered > 0 && wrapErrKind(r0.err) == "nomeas" && strings.Contains(strings.Join(att, ","), "/ok:") {
 			// a per-path measurement succeeded but the collection step took ctx.Done() instead: admissible
 			// only when the context was done by then
@@ -599,7 +607,7 @@ func wrapCtxOnce(c *lib.Ctx, r *lib.Rand, p *peer, tag, tr, regime string, plan 
 		}
 	} else {
 		which := (int64(r0.off) + 500*nsps) / (1000 * nsps)
-		ans = fmt.Sprintf("ok %d", which)
+		ans = fmt.Sprintf("ok %d reqs=%d", which, made)
 		// direct oracles, on what the peer did: nothing delivered => no success
 		if answered == 0 {
 			c.Fail("C05:wrapper:success-without-datagram",
